@@ -88,11 +88,14 @@ pub struct Req {
     pub token: String,
     /// explicit `false` for unset flags instead of omitting them (wire-equivalent)
     pub explicit_false: bool,
+    /// extra (ignored) `pad` member of this many bytes in the parameters: a well-formed request
+    /// larger than any internal buffer
+    pub pad: usize,
 }
 
 impl Req {
     pub fn new(kind: Kind, flags: Flags, token: &str) -> Req {
-        Req { kind, flags, token: token.to_string(), explicit_false: false }
+        Req { kind, flags, token: token.to_string(), explicit_false: false, pad: 0 }
     }
     pub fn method(&self) -> String {
         let t = &self.token;
@@ -137,7 +140,12 @@ impl Req {
     pub fn to_value(&self) -> Value {
         let mut m = serde_json::Map::new();
         m.insert("method".into(), json!(self.method()));
-        if let Some(p) = self.params() {
+        if let Some(mut p) = self.params() {
+            if self.pad > 0 {
+                if let Some(o) = p.as_object_mut() {
+                    o.insert("pad".into(), json!("p".repeat(self.pad)));
+                }
+            }
             m.insert("parameters".into(), p);
         }
         if self.flags.more {
@@ -476,6 +484,9 @@ pub fn random_seq(rng: &mut Rng, kinds: &[Kind], len: usize, prefix: &str, onewa
             let oneway = rng.below(100) < oneway_pct;
             let mut r = Req::new(k, Flags { more, oneway }, &format!("{}{}", prefix, i));
             r.explicit_false = rng.chance(1, 8);
+            if rng.chance(1, 60) {
+                r.pad = *rng.pick(&[8_000usize, 9_000, 66_000, 200_000]);
+            }
             r
         })
         .collect()
